@@ -12,6 +12,8 @@ from pathlib import Path
 from typing import Any, Dict, List, Optional
 
 VERIF = Path(__file__).resolve().parent.parent
+# per-digest caches of the engines; the self-test points this into the scratch copy it deletes afterwards
+CACHE = Path(os.environ.get("VERIF_CACHE", str(VERIF / ".cache")))
 REPO = Path(os.environ.get("VERIF_REPO", "/repo"))
 # self-test runs analyse scratch copies: their evidence / replay files must not overwrite the real ones
 OUT = Path(os.environ["VERIF_OUT"]) if os.environ.get("VERIF_OUT") else VERIF
